@@ -35,6 +35,21 @@ pub fn run_queries(case: &Value, pool: &[String], keys: &Keys, az: &mut Authoriz
     Value::Array(qs)
 }
 
+/// how many rows each query returns (`query` lists a fact once per origin set it is known under; the number is
+/// part of what the call reports, the order is not)
+pub fn run_query_rows(case: &Value, pool: &[String], keys: &Keys, az: &mut Authorizer) -> Value {
+    let mut rows = vec![];
+    for q in case["queries"].as_array().unwrap() {
+        let rule: Rule = rule_b(&q["q"], pool, keys);
+        let r: Result<Vec<Fact>, _> = if q["all"].as_bool().unwrap() { az.query_all(rule) } else { az.query(rule) };
+        rows.push(match r {
+            Ok(fs) => json!(fs.len()),
+            Err(_) => Value::Null,
+        });
+    }
+    Value::Array(rows)
+}
+
 /// one authorizer built from scratch on the token, authorized, then queried
 pub fn authorize_once(case: &Value, pool: &[String], keys: &Keys, token: &Biscuit) -> Value {
     let ab = match authorizer_builder_of(&case["az"], pool, keys) {
@@ -50,6 +65,7 @@ pub fn authorize_once(case: &Value, pool: &[String], keys: &Keys, token: &Biscui
     out["iterations"] = json!(az.iterations());
     out["fact_count"] = json!(az.fact_count());
     out["queries"] = run_queries(case, pool, keys, &mut az);
+    out["query_rows"] = run_query_rows(case, pool, keys, &mut az);
     out
 }
 
@@ -67,6 +83,7 @@ pub fn authorize_via_snapshot(case: &Value, pool: &[String], keys: &Keys, token:
     out["iterations"] = json!(az.iterations());
     out["fact_count"] = json!(az.fact_count());
     out["queries"] = run_queries(case, pool, keys, &mut az);
+    out["query_rows"] = run_query_rows(case, pool, keys, &mut az);
     Some(out)
 }
 
@@ -143,7 +160,17 @@ pub fn gen_case(rng: &mut rand::rngs::StdRng, keys: &Keys, o: &GenOpts) -> Value
             az["checks"].as_array_mut().unwrap().push(check_j(&c, &mut pool, keys));
         }
     }
-    let queries = gen_queries_j(rng, keys, &mut pool);
+    let mut queries = gen_queries_j(rng, keys, &mut pool);
+    // a fact of the authority block stated by the authorizer as well (one fact, two origins), and a query that lists it
+    // with whatever else its predicate holds
+    if !authority.is_empty() && rng.gen_range(0..3) == 0 {
+        use biscuit_auth::builder::{Predicate, Rule, Term};
+        let f = pick(rng, &authority).clone();
+        az["facts"].as_array_mut().unwrap().push(pred_j(&f, &mut pool));
+        let vars: Vec<Term> = (0..f.terms.len()).map(|i| Term::Variable(format!("q{i}"))).collect();
+        let r = Rule::new(Predicate { name: "data".into(), terms: vars.clone() }, vec![Predicate { name: f.name.clone(), terms: vars }], vec![], vec![]);
+        queries.push(json!({"all": rng.gen_range(0..3) == 0, "q": rule_j(&r, &mut pool, keys)}));
+    }
     json!({"op": "authz", "pool": pool.strs, "blocks": blocks, "az": az, "limits": {"f": 1000, "i": 100}, "queries": queries})
 }
 
